@@ -156,4 +156,58 @@ def pvDistribute (P : Rat) (invs : List PvInv) (oc : Nat → Outcome) : Option (
     let a := allocate P invs
     some (a.1, pvResult P a.2 a.1 oc)
 
+/-! ## Requests in flight at the same time
+
+The actor runs `distribute_power` of ONE manager object concurrently for requests with different component
+sets: while a request awaits its `set_power` calls, the calls of other requests start, run and finish.
+Everything a call computes from its own arguments and locals is its own; the only thing the calls share is
+the manager's instance attributes.  `Extracted.Distributor.pvRequestStateWrites` / `batRequestStateWrites`
+list the attributes that the per-request code writes (from the source, on every run).  Of the instance
+attributes only `_target_power` can occur in an extracted result expression (the extractor refuses any other
+`self.…` there), so the shared state a PV result can see is one number. -/
+
+/-- The instance state a result expression can read. -/
+structure Shared where
+  target : Rat    -- `self._target_power`
+deriving Repr, DecidableEq
+
+/-- The shared state seen by a request when it builds its result, after the calls of `others` (the powers
+of the other requests, in the order in which their calls ran since this request started): an attribute
+that the per-request code writes holds what the last of those calls stored (its own request's power — the
+only request-derived value there is), an attribute that it does not write still holds what `__init__`
+stored. -/
+def sharedAfter (writes : List String) (own : Rat) (others : List Rat) : Shared :=
+  { target := if writes.contains "_target_power" then (others.getLast?).getD own else pvTargetInit }
+
+/-- `_set_api_power` reading the instance state `sh` (same text as `pvResult`, which is the case
+`sh.target = pvTargetInit`). -/
+def pvResultIn (sh : Shared) (P remaining : Rat) (allocs : List (Nat × Rat)) (oc : Nat → Outcome) : Option Result :=
+  if allocs.any (fun ia => decide (pvHandling (oc ia.1) = Handling.propagates)) then none
+  else
+    let failedPower := ((allocs.filter (pvFailed oc)).map (·.2)).sum
+    let failed := (allocs.filter (pvFailed oc)).map (·.1)
+    let succeeded := (allocs.filter (pvSucceeded oc)).map (·.1)
+    if failed ≠ [] then
+      some { partialFailure := true
+             succeededPower := pvPfSucceeded P remaining failedPower sh.target
+             succeeded := succeeded
+             failedPower := pvPfFailed P remaining failedPower sh.target
+             failed := failed
+             excess := pvPfExcess P remaining failedPower sh.target }
+    else
+      some { partialFailure := false
+             succeededPower := pvOkSucceeded P remaining failedPower sh.target
+             succeeded := succeeded
+             failedPower := 0
+             failed := []
+             excess := pvOkExcess P remaining failedPower sh.target }
+
+/-- `PVManager.distribute_power` for one request while the requests `others` are in flight. -/
+def pvDistributeAmong (others : List Rat) (P : Rat) (invs : List PvInv) (oc : Nat → Outcome) :
+    Option (List (Nat × Rat) × Option Result) :=
+  if invs = [] then none
+  else
+    let a := allocate P invs
+    some (a.1, pvResultIn (sharedAfter pvRequestStateWrites P others) P a.2 a.1 oc)
+
 end Results
